@@ -31,6 +31,7 @@ inductive Op where
   | rest
   | lastTok
   | lastDefaultTok
+  | secondLastDefaultTok
   | hasCheckpoint
   | nesting
   | modeDepth
@@ -94,6 +95,7 @@ inductive Op where
   | .rest => List Char
   | .lastTok => Option (TokenType × Channel)
   | .lastDefaultTok => Option TokenType
+  | .secondLastDefaultTok => Option TokenType
   | .hasCheckpoint => Bool
   | .nesting => Nat
   | .modeDepth => Nat
@@ -117,6 +119,12 @@ namespace Lexer
 def lastDefault? : List TokInfo → Option TokInfo
   | [] => none
   | t :: ts => if t.chan = .DEFAULT then some t else lastDefault? ts
+
+/-- the DEFAULT-channel token preceding the last DEFAULT-channel token
+(`iter_token_infos().rev().filter(DEFAULT).take(2)`, second element) -/
+def secondLastDefault? : List TokInfo → Option TokInfo
+  | [] => none
+  | t :: ts => if t.chan = .DEFAULT then lastDefault? ts else secondLastDefault? ts
 
 /-- `last_token_info_on_default_channel_mut` + retype if it has the expected type
 (label detection: `MacroIdentifier` becomes `MacroLabel`). -/
@@ -159,6 +167,7 @@ def step (cfg : Cfg) : (o : Op) → Lexer → Resp o × Lexer
   | .rest, L => (L.cur.rest, L)
   | .lastTok, L => (L.toksR.head?.map (fun t => (t.ty, t.chan)), L)
   | .lastDefaultTok, L => ((lastDefault? L.toksR).map (·.ty), L)
+  | .secondLastDefaultTok, L => ((secondLastDefault? L.toksR).map (·.ty), L)
   | .hasCheckpoint, L => (L.cp.isSome, L)
   | .nesting, L => (L.nesting, L)
   | .modeDepth, L => (L.modesR.length, L)
